@@ -2,10 +2,10 @@
 
 // prop: C13
 // tier: quick
-// name: Magnitude.translation Magnitude.scaling
-// what: (translation) translating every input coordinate of a boolean operation by the same integer vector with magnitudes up to 2^52 translates the solution region (non-zero winding at the translated lattice points that are more than 2 units from every input edge); (scaling) multiplying every coordinate by the same integer factor up to 2^24 (coordinates then stay below 2^30, where every 64-bit product is exact) scales the region
-// bound: 1000 (quick) / 40000 (thorough) pseudo-random inputs (1-2 subject and 0-2 clip polygons of 3-6 vertices on the grid {0,4,..,40}^2, seeded by VERIF_SEED) x 4 clip types x NonZero / EvenOdd / Positive, each with 3 translation vectors (one of magnitude about 2^20, 2^40 and 2^52 - 2^20) and the factors 2^10 and 2^24
-// sampled: Magnitude.translation Magnitude.scaling
+// name: Magnitude.translation Magnitude.scaling Magnitude.scaling-beyond-2^31
+// what: (translation) translating every input coordinate of a boolean operation by the same integer vector with magnitudes up to 2^52 translates the solution region (non-zero winding at the translated lattice points that are more than 2 units from every input edge); (scaling) multiplying every coordinate by the same integer factor up to 2^24 (coordinates then stay below 2^30, where every 64-bit product is exact) scales the region; (scaling-beyond-2^31) the same for the factors 2^35, 2^50 and 2^55 (coordinates up to 2^60.4, inside the advertised MaxCoord of 2^61), where the 64-bit products of coordinate differences no longer fit and the library switches to floating-point products; the oracle divides the result by the factor in float64
+// bound: 1000 (quick) / 40000 (thorough) pseudo-random inputs (1-2 subject and 0-2 clip polygons of 3-6 vertices on the grid {0,4,..,40}^2, seeded by VERIF_SEED) x 4 clip types x NonZero / EvenOdd / Positive, each with 3 translation vectors (one of magnitude about 2^20, 2^40 and 2^52 - 2^20) and the factors 2^10, 2^24, 2^35, 2^50, 2^55
+// sampled: Magnitude.translation Magnitude.scaling Magnitude.scaling-beyond-2^31
 
 package go_clipper2
 
@@ -113,10 +113,47 @@ func TestVerifBoundedMagnitude(t *testing.T) {
 				if bad != "" {
 					report("scaling", ct, fr, subj, clip, bad)
 				}
+				cases["scaling-beyond-2^31"]++
+				bad = ""
+				for _, k := range []int64{1 << 35, 1 << 50, 1 << 55} {
+					sc := func(p Point64) Point64 { return Point64{p.X * k, p.Y * k} }
+					res := BooleanOpPaths64(ct, v13Copy(subj, sc), v13Copy(clip, sc), fr)
+					for _, s := range far {
+						if (vcWindAll(s, base) != 0) != (v13WindScaled(s, res, k) != 0) && bad == "" {
+							bad = fmt.Sprintf("scaled by 2^%d: at %v inside=%v, at the scaled point %v", map[int64]int{1 << 35: 35, 1 << 50: 50, 1 << 55: 55}[k], s, vcWindAll(s, base) != 0, v13WindScaled(s, res, k) != 0)
+						}
+					}
+				}
+				if bad != "" {
+					report("scaling-beyond-2^31", ct, fr, subj, clip, bad)
+				}
 			}
 		}
 	}
-	for _, w := range []string{"translation", "scaling"} {
+	for _, w := range []string{"translation", "scaling", "scaling-beyond-2^31"} {
 		fmt.Printf("VERIF-BOUNDED Magnitude.%s cases=%d failures=%d\n", w, cases[w], fails[w])
 	}
+}
+
+// v13WindScaled: winding number of the point k*s with respect to paths whose coordinates are about k
+// times the lattice, evaluated on the coordinates divided by k in float64 (the lattice points are more
+// than 2 units from every input edge, so the rounding of the division cannot change the answer)
+func v13WindScaled(s Point64, pp Paths64, k int64) int {
+	w := 0
+	for _, p := range pp {
+		n := len(p)
+		for i := 0; i < n; i++ {
+			a, b := p[i], p[(i+1)%n]
+			ax, ay, bx, by := float64(a.X)/float64(k), float64(a.Y)/float64(k), float64(b.X)/float64(k), float64(b.Y)/float64(k)
+			px, py := float64(s.X), float64(s.Y)
+			if ay <= py {
+				if by > py && (bx-ax)*(py-ay)-(px-ax)*(by-ay) > 0 {
+					w++
+				}
+			} else if by <= py && (bx-ax)*(py-ay)-(px-ax)*(by-ay) < 0 {
+				w--
+			}
+		}
+	}
+	return w
 }
